@@ -110,6 +110,9 @@ impl C08 {
         let mut ok = true;
         for (ai, algo) in ALGOS.iter().enumerate() {
             let got: Option<Result<Vec<usize>, String>> = match ai {
+                // ShiftAnd and KMP take any iterator: every other pass hands them one without an exact size hint
+                0 if pass % 2 == 1 => m.sa.as_ref().map(|x| guard(|| x.find_all(t.iter().filter(|_| true)).collect())),
+                4 if pass % 2 == 1 => Some(guard(|| m.kmp.find_all(t.iter().filter(|_| true)).collect())),
                 0 => m.sa.as_ref().map(|x| guard(|| x.find_all(t).collect())),
                 1 => m.bn.as_ref().map(|x| guard(|| x.find_all(t).collect())),
                 2 => Some(guard(|| m.bom.find_all(t).collect())),
